@@ -30,6 +30,10 @@ def run(cmd, **kw):
 
 
 env = dict(os.environ, PYTHONPATH=f"{wt}/src")
+# mutations are examined on top of the current /repo HEAD (which includes the fix: commits)
+head = run("git -C /repo rev-parse HEAD").stdout.strip()
+run(f"git -C {wt} checkout -- . && git -C {wt} checkout -q --detach {head}")
+meta["base_commit"] = head[:8]
 if not skip:
     run(f"git -C {wt} checkout -- .")
     r = run(f"PYTHONPATH={wt}/src /venv/bin/python {demo}")
